@@ -62,10 +62,11 @@ def load_config(config_path: Path) -> dict[str, Any]:
     """
     if not config_path.exists():
         pyproject_path = config_path.parent / "pyproject.toml"
-        try:
-            config = parse_pyproject_toml(pyproject_path)
-        except ConfigParseError:
+        if not pyproject_path.is_file():
             return get_defaults()
+        # A pyproject.toml that exists but cannot be parsed is a configuration error,
+        # like an unparsable .thailint.yaml; do not silently fall back to defaults.
+        config = parse_pyproject_toml(pyproject_path)
         return config if config else get_defaults()
 
     return parse_config_file(config_path)
